@@ -121,7 +121,7 @@ may write; `src`/`sec` = the one (object, section) pair the call may report agai
 structure Frame (T : Obj → Prop) (src : Obj) (sec : Sec) (st st' : St) : Prop where
   docstring : ∀ x, (st'.objs x).docstring = (st.objs x).docstring
   parsed : ∀ x, ¬ T x → (st'.objs x).parsed = (st.objs x).parsed
-  summary : ∀ x, ¬ T x → x ≠ src → (st'.objs x).parsedSummary = (st.objs x).parsedSummary
+  summary : ∀ x, ¬ T x → (st'.objs x).parsedSummary = (st.objs x).parsedSummary
   ptype : ∀ x, ¬ T x → (st'.objs x).ptype = (st.objs x).ptype
   errors_mono : ∀ p ∈ st.errors, p ∈ st'.errors
   errors_new : ∀ p ∈ st'.errors, p ∈ st.errors ∨ p = (sec, src)
@@ -132,14 +132,14 @@ structure Frame (T : Obj → Prop) (src : Obj) (sec : Sec) (st st' : St) : Prop 
         ∃ ph, (sec, src, ph) ∉ st.reported ∧ (sec, src, ph) ∈ st'.reported
 
 theorem Frame.refl (T : Obj → Prop) (src : Obj) (sec : Sec) (st : St) : Frame T src sec st st :=
-  ⟨fun _ => rfl, fun _ _ => rfl, fun _ _ _ => rfl, fun _ _ => rfl, fun _ h => h, fun _ h => .inl h,
+  ⟨fun _ => rfl, fun _ _ => rfl, fun _ _ => rfl, fun _ _ => rfl, fun _ h => h, fun _ h => .inl h,
    fun _ h => h, fun _ h => .inl h, ⟨[], by simp⟩⟩
 
 theorem Frame.trans {T : Obj → Prop} {src : Obj} {sec : Sec} {a b c : St}
     (h1 : Frame T src sec a b) (h2 : Frame T src sec b c) : Frame T src sec a c := by
   refine ⟨fun x => (h2.docstring x).trans (h1.docstring x),
           fun x hx => (h2.parsed x hx).trans (h1.parsed x hx),
-          fun x hx hs => (h2.summary x hx hs).trans (h1.summary x hx hs),
+          fun x hx => (h2.summary x hx).trans (h1.summary x hx),
           fun x hx => (h2.ptype x hx).trans (h1.ptype x hx),
           fun p hp => h2.errors_mono p (h1.errors_mono p hp), ?_,
           fun k hk => h2.reported_mono k (h1.reported_mono k hk), ?_, ?_⟩
@@ -163,7 +163,7 @@ theorem Frame.trans {T : Obj → Prop} {src : Obj} {sec : Sec} {a b c : St}
 
 theorem Frame.mono {T T' : Obj → Prop} {src : Obj} {sec : Sec} {a b : St} (h : Frame T src sec a b)
     (hT : ∀ x, T x → T' x) : Frame T' src sec a b :=
-  ⟨h.docstring, fun x hx => h.parsed x (fun c => hx (hT x c)), fun x hx hs => h.summary x (fun c => hx (hT x c)) hs,
+  ⟨h.docstring, fun x hx => h.parsed x (fun c => hx (hT x c)), fun x hx => h.summary x (fun c => hx (hT x c)),
    fun x hx => h.ptype x (fun c => hx (hT x c)), h.errors_mono, h.errors_new, h.reported_mono, h.reported_new, h.reports⟩
 
 theorem frame_reportErrors (T : Obj → Prop) (src : Obj) (sec : Sec) (st : St) (errs : List Err) (ph : Phase) :
@@ -201,16 +201,15 @@ theorem frame_setPType (T : Obj → Prop) (src : Obj) (sec : Sec) (st : St) (o :
    fun _ h => h, fun _ h => .inl h, fun _ h => h, fun _ h => .inl h, ⟨[], by simp⟩⟩
 
 theorem frame_setSummary (T : Obj → Prop) (src : Obj) (sec : Sec) (st : St) (o : Obj) (pd : PD)
-    (hT : T o ∨ o = src) : Frame T src sec st (setSummary st o pd) :=
+    (hT : T o) : Frame T src sec st (setSummary st o pd) :=
   ⟨by simp, by simp,
-   fun x hx hs => by
-     rw [setSummary_ne _ _ _ _ (fun c => by subst c; rcases hT with h | h; exact hx h; exact hs h)],
+   fun x hx => by rw [setSummary_ne _ _ _ _ (fun c => by subst c; exact hx hT)],
    by simp, fun _ h => h, fun _ h => .inl h, fun _ h => h, fun _ h => .inl h, ⟨[], by simp⟩⟩
 
 theorem Frame.of_eq {T : Obj → Prop} {src : Obj} {sec : Sec} {st st' : St} (h1 : st'.objs = st.objs)
     (h2 : st'.errors = st.errors) (h3 : st'.reports = st.reports) (h4 : st'.reported = st.reported) :
     Frame T src sec st st' :=
-  ⟨fun x => by rw [h1], fun x _ => by rw [h1], fun x _ _ => by rw [h1], fun x _ => by rw [h1],
+  ⟨fun x => by rw [h1], fun x _ => by rw [h1], fun x _ => by rw [h1], fun x _ => by rw [h1],
    fun p hp => by rw [h2]; exact hp, fun p hp => .inl (by rw [h2] at hp; exact hp),
    fun k hk => by rw [h4]; exact hk, fun k hk => .inl (by rw [h4] at hk; exact hk), ⟨[], by simp [h3]⟩⟩
 
@@ -245,7 +244,7 @@ theorem frame_ensureParsed (env : Env) (st : St) (obj : Obj) :
   all_goals exact Frame.refl _ _ _ _
 
 theorem frame_safeToStanOut (T : Obj → Prop) (src ctx : Obj) (sec0 : Sec) (st : St) (out : StanOut) (fb : Fallback)
-    (report : Bool) (sec : Sec) (hctx : ctx = src ∨ T ctx) (hrep : report = true → ctx = src ∧ sec = sec0) :
+    (report : Bool) (sec : Sec) (hctx : fb = .summary → T ctx) (hrep : report = true → ctx = src ∧ sec = sec0) :
     Frame T src sec0 st (safeToStanOut st out ctx fb report sec).2 := by
   unfold safeToStanOut
   cases out with
@@ -257,7 +256,7 @@ theorem frame_safeToStanOut (T : Obj → Prop) (src ctx : Obj) (sec0 : Sec) (st 
       cases fb with
       | docstring => simp only []; split <;> exact Frame.refl _ _ _ _
       | broken => exact Frame.refl _ _ _ _
-      | summary => exact frame_setSummary _ _ _ _ _ _ (hctx.symm)
+      | summary => exact frame_setSummary _ _ _ _ _ _ (hctx rfl)
     cases report with
     | false => simpa using hfb
     | true =>
@@ -271,7 +270,7 @@ theorem frame_formatFields (env : Env) (obj src : Obj) :
   | f :: fs, st => by
     have hfmt : ∀ st0 : St, Frame (Only obj) src 0 st0
         (formatFields env (safeToStanOut st0 (bodyToStan env f.body) src .broken true 0).2 obj src fs).2 :=
-      fun st0 => Frame.trans (frame_safeToStanOut _ src src 0 st0 _ .broken true 0 (.inl rfl) (fun _ => ⟨rfl, rfl⟩))
+      fun st0 => Frame.trans (frame_safeToStanOut _ src src 0 st0 _ .broken true 0 (fun h => by cases h) (fun _ => ⟨rfl, rfl⟩))
         (frame_formatFields env obj src fs _)
     unfold formatFields
     split
@@ -298,7 +297,7 @@ theorem doc_spec (env : Env) (st : St) (obj : Obj) :
     split
     · rename_i hnone; simp [hnone] at hp
     · exact ⟨Frame.trans hf (Frame.trans
-        (frame_safeToStanOut _ _ _ 0 _ _ .docstring true 0 (.inl rfl) (fun _ => ⟨rfl, rfl⟩))
+        (frame_safeToStanOut _ _ _ 0 _ _ .docstring true 0 (fun h => by cases h) (fun _ => ⟨rfl, rfl⟩))
         (frame_formatFields env obj _ _ _)), rfl⟩
 
 /-- `ParsedDocstring.get_summary` (base class) never raises, whatever `to_node` and the walk do -/
@@ -318,7 +317,7 @@ theorem getParsedSummary_spec (env : Env) (st : St) (obj : Obj) :
   split
   · exact ⟨hf, _, _, rfl, fun s h => (hs s h).2⟩
   · split
-    · exact ⟨Frame.trans hf (frame_setSummary _ _ _ _ _ _ (.inl rfl)), _, _, rfl, fun s h => by simp at h⟩
+    · exact ⟨Frame.trans hf (frame_setSummary _ _ _ _ _ _ rfl), _, _, rfl, fun s h => by simp at h⟩
     · rename_i src hsrc
       obtain ⟨hp, rfl⟩ := hs src hsrc
       split
@@ -327,7 +326,7 @@ theorem getParsedSummary_spec (env : Env) (st : St) (obj : Obj) :
         have := base_get_summary_total env pd
         split
         · rename_i e he; simp [he, Res.isOk] at this
-        · exact ⟨Frame.trans hf (frame_setSummary _ _ _ _ _ _ (.inl rfl)), _, _, rfl, fun s h => by simpa using h.symm⟩
+        · exact ⟨Frame.trans hf (frame_setSummary _ _ _ _ _ _ rfl), _, _, rfl, fun s h => by simpa using h.symm⟩
 
 theorem summary_spec (env : Env) (st : St) (obj : Obj) :
     Frame (Only obj) (sourceOf env st obj) 0 st (formatSummary env st obj).2 ∧
@@ -340,13 +339,9 @@ theorem summary_spec (env : Env) (st : St) (obj : Obj) :
     rw [heq] at he hf
     simp only [Res.ok.injEq, Prod.mk.injEq] at he
     obtain ⟨rfl, rfl⟩ := he
-    refine ⟨Frame.trans hf ?_, rfl⟩
-    unfold safeToStan
-    apply frame_safeToStanOut
-    · cases source' with
-      | none => exact .inr rfl
-      | some s => exact .inl (hsrc s rfl)
-    · intro h; cases h
+    split
+    · exact ⟨hf, rfl⟩
+    · exact ⟨Frame.trans hf (frame_setSummary _ _ _ _ _ _ rfl), rfl⟩
 
 /-- `format_toc` returns whatever `get_toc` does (c422501: `try … except Exception: toc = None`) -/
 theorem toc_spec (env : Env) (st : St) (obj : Obj) :
@@ -362,7 +357,7 @@ theorem toc_spec (env : Env) (st : St) (obj : Obj) :
       · exact ⟨hf, rfl⟩
       · refine ⟨Frame.trans hf ?_, rfl⟩
         unfold safeToStan
-        exact frame_safeToStanOut _ _ _ _ _ _ _ _ _ (.inr rfl) (fun h => by cases h)
+        exact frame_safeToStanOut _ _ _ _ _ _ _ _ _ (fun h => by cases h) (fun h => by cases h)
     · exact ⟨hf, rfl⟩
 
 /-- HISTORICAL (before c422501): the old `format_toc` raised exactly when `get_toc` did -/
@@ -803,7 +798,7 @@ theorem isolation (env : Env) (st : St) (op : Op) (obj B : Obj)
   refine ⟨?_, ?_, ?_⟩
   · have h1 := hf.docstring B
     have h2 := hf.parsed B hB
-    have h3 := hf.summary B hB hS
+    have h3 := hf.summary B hB
     have h4 := hf.ptype B hB
     cases hx : (step env st op obj).2.objs B
     cases hy : st.objs B
@@ -831,11 +826,29 @@ theorem touchedOf_ne (env : Env) (st : St) (op : Op) (obj B : Obj) (hop : op ≠
   simp [touchedOf, hop, Only, hB]
 
 /-- the object the docstring was inherited from keeps its docstring and parsed form; it receives the
-reports (it is its docstring), and only its cached summary can be overwritten -/
+reports (it is its docstring); since c070c47 nothing cached on it is overwritten -/
 theorem isolation_source (env : Env) (st : St) (op : Op) (obj B : Obj) (hB : ¬ touchedOf env st op obj B) :
     ((step env st op obj).2.objs B).docstring = (st.objs B).docstring ∧
-    ((step env st op obj).2.objs B).parsed = (st.objs B).parsed :=
-  ⟨(frame_step env st op obj).docstring B, (frame_step env st op obj).parsed B hB⟩
+    ((step env st op obj).2.objs B).parsed = (st.objs B).parsed ∧
+    ((step env st op obj).2.objs B).parsedSummary = (st.objs B).parsedSummary ∧
+    ((step env st op obj).2.objs B).ptype = (st.objs B).ptype :=
+  ⟨(frame_step env st op obj).docstring B, (frame_step env st op obj).parsed B hB,
+   (frame_step env st op obj).summary B hB, (frame_step env st op obj).ptype B hB⟩
+
+/-- since c070c47: whatever happens while the summary of `obj` is produced — its renderer may fail —
+the cached summary (and everything else cached) of EVERY other object is left as it was, the object the
+docstring was inherited from or is a field of included -/
+theorem summary_failure_stays_local (env : Env) (st : St) (obj B : Obj) (hB : B ≠ obj) :
+    (formatSummary env st obj).2.objs B = st.objs B := by
+  have hf := (summary_spec env st obj).1
+  have hn : ¬ Only obj B := hB
+  have h1 := hf.docstring B
+  have h2 := hf.parsed B hn
+  have h3 := hf.summary B hn
+  have h4 := hf.ptype B hn
+  cases hx : (formatSummary env st obj).2.objs B
+  cases hy : st.objs B
+  simp_all
 
 /-- object 1 inherits object 0's docstring; the summary's `to_stan` raises -/
 def envInherit : Env :=
@@ -846,13 +859,15 @@ def envInherit : Env :=
 
 def stInherit : St := ⟨fun o => if o = 0 then ⟨some ['x'], none, none, none⟩ else ⟨none, none, none, none⟩, [], [], false, []⟩
 
-/-- the one cross-object effect the code has: a failing summary of an INHERITED docstring marks the
-summary of the object it was inherited from as broken (`format_summary_fallback` writes to `ctx`,
-which is the source), while the inheriting object keeps its own cached summary -/
+/-- HISTORICAL (before c070c47, `formatSummaryOld`): a failing summary of an INHERITED docstring marked the
+summary of the object it was inherited from as broken (`format_summary_fallback` wrote to `ctx`, the
+source), while the inheriting object kept its own cached summary; now the inheriting object is marked
+and the source is left alone -/
 theorem summary_fallback_touches_source :
-    ((formatSummary envInherit stInherit 1).2.objs 0).parsedSummary = some (.stanOnly .broken) ∧
-    ((formatSummary envInherit stInherit 1).2.objs 1).parsedSummary = some (.user 2 []) ∧
-    (stInherit.objs 0).parsedSummary = none := by
+    ((formatSummaryOld envInherit stInherit 1).2.objs 0).parsedSummary = some (.stanOnly .broken) ∧
+    ((formatSummaryOld envInherit stInherit 1).2.objs 1).parsedSummary = some (.user 2 []) ∧
+    ((formatSummary envInherit stInherit 1).2.objs 0).parsedSummary = none ∧
+    ((formatSummary envInherit stInherit 1).2.objs 1).parsedSummary = some (.stanOnly .broken) := by
   decide
 
 /-- object 1 is a variable documented by an `@ivar` field of class 0's docstring (split field: no docstring of
@@ -867,16 +882,19 @@ def envSplit : Env :=
 def stSplit : St :=
   ⟨fun o => if o = 0 then ⟨some ['x'], none, none, none⟩ else ⟨none, some (.user 5 []), none, none⟩, [], [], false, []⟩
 
-/-- witness for the open finding `summary:fallback-overwrites-source-summary`: the class's summary renders
-(`o2`); then the summary of the variable it documents by a field fails — and the CLASS's cached summary is
-overwritten with BROKEN, so the class now shows 'Broken description' too (`format_summary_fallback` writes to
-`ctx`, the docstring source, not to the object being rendered) -/
+/-- HISTORICAL witness (before c070c47, `formatSummaryOld`) for the finding `summary:fallback-overwrites-source-summary`,
+next to what the code does now: the class's summary renders (`o2`); then the summary of the variable it
+documents by a field fails.  Old: the CLASS's cached summary was overwritten with BROKEN, the class showed
+'Broken description' too.  Now: the class keeps `o2`. -/
 theorem summary_fallback_overwrites_class_summary :
     let s1 := (formatSummary envSplit stSplit 0).2
-    let s2 := (formatSummary envSplit s1 1).2
+    let o2 := (formatSummaryOld envSplit s1 1).2
+    let n2 := (formatSummary envSplit s1 1).2
     sumOf (formatSummary envSplit stSplit 0).1 = some (.opaque 2) ∧
+    sumOf (formatSummaryOld envSplit s1 1).1 = some .broken ∧
+    sumOf (formatSummaryOld envSplit o2 0).1 = some .broken ∧
     sumOf (formatSummary envSplit s1 1).1 = some .broken ∧
-    sumOf (formatSummary envSplit s2 0).1 = some .broken := by
+    sumOf (formatSummary envSplit n2 0).1 = some (.opaque 2) := by
   decide
 
 /-! ### a second call on the same object reports nothing new -/
@@ -1073,9 +1091,7 @@ theorem formatSummary_tail (env : Env) (st : St) (obj : Obj) :
     rcases hs with h | ⟨s, h⟩ <;> simp only [] at h <;> subst h <;> simp
   · rename_i source pd st' heq
     rw [heq] at hs
-    obtain ⟨a, b, _, d⟩ := safeToStanOut_noreport st' (pdToStan env pd) (source.getD obj) .summary 0
-    simp only [safeToStan, a, b, d]
-    rcases hs with h | ⟨s, h⟩ <;> simp only [] at h <;> subst h <;> simp
+    rcases hs with h | ⟨s, h⟩ <;> simp only [] at h <;> subst h <;> (split <;> simp)
 
 theorem formatToc_tail (env : Env) (st : St) (obj : Obj) :
     (formatToc env st obj).2.reports = (ensureParsed env st obj).2.reports ∧
@@ -1339,7 +1355,7 @@ theorem Frame.loose {T : Obj → Prop} {src : Obj} {sec : Sec} {a b : St} (h : F
     have hne : x ≠ src := fun c => hx (c ▸ hs)
     have e1 := h.docstring x
     have e2 := h.parsed x h0
-    have e3 := h.summary x h0 hne
+    have e3 := h.summary x h0
     have e4 := h.ptype x h0
     cases hb : b.objs x
     cases ha : a.objs x
